@@ -494,6 +494,21 @@ def _out6_indexed(unit, fn, summ, R):
                 if lag > NEG and ip[2] <= lag:
                     why = 'index %s%+d with the read counter at least %d ahead' % (ip[1], ip[2], lag)
                     continue
+                if lag == NEG:
+                    # counters that come into the function from outside (parameters, or loaded through pointer parameters): how far
+                    # apart they are is the callers' invariant, which this rule keeps for cursors handed in as pointers only
+                    def from_outside(d_):
+                        if any(p_['d'] == d_ for p_ in fn.params):
+                            return True
+                        ds_ = [x_['init'] for x_ in fn.locals() if x_['d'] == d_ and 'init' in x_]
+                        ds_ += [a_['r'] for a_ in fn.nodes() if a_.get('k') == 'bin' and a_.get('op') == '=' and
+                                strip_casts(a_['l']).get('k') == 'ref' and strip_casts(a_['l'])['d'] == d_]
+                        return any(strip_casts(x_).get('k') == 'un' and strip_casts(x_).get('op') == '*' and
+                                   strip_casts(strip_casts(x_)['e']).get('dk') == 'param' for x_ in ds_)
+                    if from_outside(r) and from_outside(ip[0]):
+                        raise AnalysisBroken('OUT6: %s: the read and write positions of %s come into the function as numbers (%s); '
+                                             'the distance between them is an invariant of the callers that this rule does not follow'
+                                             % (fn.where(ev.node), fn.name, ip[1]))
                 ok = False
                 why = 'store at %s[%s%+d] while the distance of the read counter to %s is %s: it may land beyond the byte being read' % (
                     _cursor_key(acc[0]), ip[1], ip[2], ip[1], lag if lag > NEG else 'unknown')
@@ -504,14 +519,14 @@ def _out6_indexed(unit, fn, summ, R):
     return 1
 
 
-def out6(units, R):
+def out6(units, R, unit_names=('cJSON.c', 'cJSON_Utils.c')):
     """In-place transformers: the write cursor never overtakes a read cursor that is still in use, so every store lands on
     a byte the reader has already passed (or is reading in the same statement).  Difference bounds between all character
     cursors of the function (rules/curdiff.py) make this independent of whether the function works on its parameters
     directly or on local copies that it stores back."""
     from .curdiff import CursorDiffs, summaries_of, NEG
     nfn = 0
-    for unit in (units['cJSON.c'], units['cJSON_Utils.c']):
+    for unit in [units[un_] for un_ in unit_names]:
         summ = summaries_of(unit)
         for fn in unit.function_list:
             nfn += _out6_indexed(unit, fn, summ, R)
@@ -643,7 +658,7 @@ def out6(units, R):
             for (ok, why, node) in obs.values():
                 R.ob('OUT6', fn, node, 'in-place store %s stays behind the reader' % expr_str(node)[:60], ok, why,
                      key='store:' + expr_str(node)[:60])
-    R.floor('OUT6', 'in-place transformers', nfn, 3)
+    R.floor('OUT6', 'in-place transformers', nfn, 3 if len(unit_names) > 1 else 1)
 
 
 # ---- OUT7 path-buffer sizing ------------------------------------------------------------------------------
